@@ -91,6 +91,17 @@ theorem gen_failed_run_leaves_no_entry (hy : Hyp W) {σ : Store} (hi : Inv W σ)
     ∃ e, openAt W.H W.d (genStep W σ r).1 (W.rsum r.input) (W.dsum r.cmd) = .error e := by
   rw [gen_step_eq]; exact failed_run_leaves_no_entry W hy hi r hfail
 
+/-- **A changed input (or option) misses and recomputes, in the regenerated code**: in every history of runs of the
+regenerated io.go functions from the empty directory, a run that goes past `TryCache` and whose key differs (root sum
+or data sum) from the key of every earlier run is shown the output and the status of its own body, and the protocol
+model classifies it as a MISS — `changed_key_misses` through `gen_step_eq` / `gen_history_eq`. -/
+theorem gen_changed_key_misses (hH : ∀ x, (W.H x).length = W.d) (runs : List (Run Cmd Input)) (r : Run Cmd Input)
+    (hlive : (r.nocache || !r.usable || (W.exec r.cmd r.input).early) = false)
+    (hnew : ∀ r' ∈ runs, W.rsum r.input ≠ W.rsum r'.input ∨ W.dsum r.cmd ≠ W.dsum r'.cmd) :
+    verdict W (genHistory W emptyStore runs).1 r = .miss ∧
+    (genStep W (genHistory W emptyStore runs).1 r).2 = (W.exec r.cmd r.input).observed := by
+  rw [gen_step_eq, gen_history_eq]; exact changed_key_misses W hH runs r hlive hnew
+
 /-- non-vacuity: the failing toy run has status 1 -/
 example : ((toyWorld true false).exec (toyRun false true).cmd (toyRun false true).input).status ≠ 0 := by decide
 
@@ -374,6 +385,23 @@ example : (genHistory sortWorld emptyStore sortHistory).2 =
      ⟨ascii "g\nab\ncdef\n", 0⟩, ⟨ascii ">cdef\n>ab\n>g\n", 0⟩, ⟨[], 1⟩, ⟨[], 1⟩,
      ⟨ascii "cdef\nab\nhi\n", 0⟩, ⟨ascii "cdef\nab\nhi\n", 0⟩] := by
   rw [sortWorld_transparent]; decide
+
+/-- non-vacuity of `changed_content_misses` / `gen_changed_key_misses`: in `sortWorld`, after three runs on input A
+(two commands), the base command on input B — whose BYTES differ from A's — misses and shows B's own output -/
+example :
+    verdict sortWorld (history sortWorld emptyStore
+        [sortRun false false .recA, sortRun true false .recA, sortRun false false .recA]).1
+      (sortRun false false .recB) = .miss ∧
+    (step sortWorld (history sortWorld emptyStore
+        [sortRun false false .recA, sortRun true false .recA, sortRun false false .recA]).1
+      (sortRun false false .recB)).2 = (sortWorld.exec (false, false) .recB).observed :=
+  changed_content_misses sortWorld sumH_size sortWorld_parts.hcollC _ (sortRun false false .recB) rfl (by decide)
+
+set_option maxRecDepth 100000 in
+example :
+    (genStep sortWorld (genHistory sortWorld emptyStore [sortRun false false .recA, sortRun true false .recA]).1
+      (sortRun false false .recB)).2 = ⟨ascii "cdef\nab\nhi\n", 0⟩ :=
+  (gen_changed_key_misses sortWorld sumH_size _ (sortRun false false .recB) rfl (by decide)).2.trans (by decide)
 
 /-- the collision hypotheses are NOT true of the digest in general (they are proved on the universe of
 `sortWorld` only): the checksum collides on other byte strings -/
